@@ -18,29 +18,83 @@ RULE = ("space A = log_format x value of field 'a' x log_flattened variant x {no
         "log_level x log_namespace x log_failure; space C = legacy event dicts (message x isError x failure x why x "
         "%-format x value).  Every event goes through formatEvent, eventAsText (flag combinations), "
         "formatEventAsClassicLogText, formatUnformattableEvent (A) or textFromEventDict (C).  non-trivial = the event "
-        "holds at least one value outside the benign class of its domain (raising/non-text str, repr, format, "
-        "getattr, call; malformed or non-str format; odd time/system/level/namespace/failure)")
-BOUNDS = {"quick": "A: 40 formats x 24 values x (4 log_flattened x {no, benign} system fields + hostile extra keys), "
-                   "5 API variants; B1: 3 formats x 14 x 8 x 8 x 6 x 7 system-field product, B2: unformattable event x "
+        "holds at least one value outside the benign class of its domain (raising (Exception or a non-Exception BaseException subclass)/non-text str, repr, "
+        "format, getattr, call; malformed or non-str format; odd time/system/level/namespace/failure)")
+BOUNDS = {"quick": "A: 40 formats x 31 values x (4 log_flattened x {no, benign} system fields + hostile extra keys), "
+                   "5 API variants; B1: 3 formats x 15 x 9 x 9 x 7 x 8 system-field product, B2: unformattable event x "
                    "<= 2 non-default system fields, 5 API variants; C: full product of the legacy domains",
           "thorough": "A also crossed with 3 values of the nested-spec field 'w' and all 8 eventAsText flag "
                       "combinations; B with all flag combinations and B2 with <= 3 non-default system fields"}
 ASSUMPTIONS = [
-    "hostile objects raise Exception subclasses only (KeyboardInterrupt/SystemExit style BaseExceptions are not "
-    "covered by the statement's 'raise')",
+    "hostile objects raise Exception subclasses or a harness-defined BaseException subclass (standing for "
+    "GeneratorExit-like exceptions); KeyboardInterrupt/SystemExit are not used (they would end the worker)",
     "log_failure is a real Failure, None, a non-Failure without getTraceback, or an object whose getTraceback "
     "raises; duck-typed objects returning non-text tracebacks are not failures",
     "formatEventAsClassicLogText and textFromEventDict may return None where their documentation says so",
     "legacy event dicts always carry 'message' (a tuple) and 'isError', as twisted.python.log guarantees",
 ]
-MIN = {"quick": {"evaluations": 470000, "nontrivial": 450000, "outcomes": 8},
-       "thorough": {"evaluations": 1080000, "nontrivial": 1050000, "outcomes": 8}}
+MIN = {"quick": {"evaluations": 860000, "nontrivial": 850000, "outcomes": 8},
+       "thorough": {"evaluations": 1860000, "nontrivial": 1830000, "outcomes": 8}}
 
 
 # ----------------------------------------------------------------- hostile values
 
 class Hostile(Exception):
     pass
+
+
+class HostileBase(BaseException):
+    """A BaseException that is not an Exception (like GeneratorExit), but harmless to the worker process."""
+
+
+class AllRaiseBase:
+    def __str__(self):
+        raise HostileBase("str")
+
+    def __repr__(self):
+        raise HostileBase("repr")
+
+    def __format__(self, spec):
+        raise HostileBase("format")
+
+    def __getattr__(self, name):
+        raise HostileBase("getattr")
+
+    def __getitem__(self, k):
+        raise HostileBase("getitem")
+
+    def __call__(self):
+        raise HostileBase("call")
+
+    def __index__(self):
+        raise HostileBase("index")
+
+    def __float__(self):
+        raise HostileBase("float")
+
+
+class StrRaisesBase:
+    def __str__(self):
+        raise HostileBase("str")
+
+
+class ReprRaisesBase:
+    def __repr__(self):
+        raise HostileBase("repr")
+
+
+class FormatRaisesBase:
+    def __format__(self, spec):
+        raise HostileBase("format")
+
+
+class TracebackRaisesBase:
+    def getTraceback(self, *a, **k):
+        raise HostileBase("getTraceback")
+
+
+def _raise_call_base():
+    raise HostileBase("call")
 
 
 class VeryHostile(Exception):
@@ -188,6 +242,13 @@ VALUES = {
     "attr-hostile": ("hostile", lambda: Obj(b=AllRaise())),
     "failure": ("ok", lambda: _failure(ValueError("v"))),
     "failure-unrenderable": ("hostile", lambda: _raised_failure(VeryHostile())),
+    "str-raises-base": ("hostile-base", StrRaisesBase),
+    "repr-raises-base": ("hostile-base", ReprRaisesBase),
+    "format-raises-base": ("hostile-base", FormatRaisesBase),
+    "all-raise-base": ("hostile-base", AllRaiseBase),
+    "call-raises-base": ("hostile-base", lambda: _raise_call_base),
+    "list-of-base-raisers": ("hostile-base", lambda: [AllRaiseBase()]),
+    "attr-base-raiser": ("hostile-base", lambda: Obj(b=AllRaiseBase())),
 }
 
 FORMATS = {
@@ -255,6 +316,7 @@ TIMES = {
     "2**70": ("unrepresentable", lambda: 2 ** 70),
     "str": ("non-number", lambda: "12"),
     "hostile": ("non-number", AllRaise),
+    "raises-base": ("hostile-base", AllRaiseBase),
 }
 
 SYSTEMS = {
@@ -266,6 +328,7 @@ SYSTEMS = {
     "bytes": ("non-str", lambda: b"\xff"),
     "str-raises": ("hostile", AllRaise),
     "str-nontext": ("hostile", StrNonText),
+    "str-raises-base": ("hostile-base", AllRaiseBase),
 }
 
 LEVELS = {
@@ -277,6 +340,7 @@ LEVELS = {
     "str": ("non-constant", lambda: "info"),
     "int": ("non-constant", lambda: 5),
     "hostile": ("non-constant", AllRaise),
+    "raises-base": ("hostile-base", AllRaiseBase),
 }
 
 NAMESPACES = {
@@ -286,6 +350,7 @@ NAMESPACES = {
     "int": ("non-str", lambda: 5),
     "str-raises": ("hostile", StrRaises),
     "format-raises": ("hostile", FormatRaises),
+    "str-raises-base": ("hostile-base", AllRaiseBase),
 }
 
 FAILURES = {
@@ -296,6 +361,7 @@ FAILURES = {
     "raised-failure": ("ok", lambda: _raised_failure(ValueError("v"))),
     "failure-unrenderable": ("hostile", lambda: _raised_failure(VeryHostile())),
     "getTraceback-raises": ("hostile", TracebackRaises),
+    "getTraceback-raises-base": ("hostile-base", TracebackRaisesBase),
 }
 
 EXTRA = {
@@ -361,7 +427,7 @@ def judge(fn, ev, none_ok):
     """None if fine, else (kind, detail)."""
     try:
         r = fn(ev)
-    except Exception as e:
+    except (Exception, HostileBase) as e:
         return ("raises", type(e).__name__), None
     if type(r) is str or (r is None and none_ok):
         return None, r
@@ -468,10 +534,13 @@ def eval_spec(st, spec, table, space):
 # ----------------------------------------------------------------- legacy (space C)
 
 L_MESSAGE = {"empty": lambda: (), "text": lambda: ("x", "y"), "hostile": lambda: (AllRaise(), StrNonText()),
+             "base-raiser": lambda: ("x", AllRaiseBase()),
              "bytes": lambda: (b"\xff", b"ok")}
 L_FAILURE = {"absent": lambda: ABSENT, "none": lambda: None, "failure": lambda: _raised_failure(ValueError("v")),
-             "failure-unrenderable": lambda: _raised_failure(VeryHostile()), "getTraceback-raises": TracebackRaises}
+             "failure-unrenderable": lambda: _raised_failure(VeryHostile()), "getTraceback-raises": TracebackRaises,
+             "getTraceback-raises-base": TracebackRaisesBase}
 L_WHY = {"absent": lambda: ABSENT, "none": lambda: None, "text": lambda: "why", "hostile": AllRaise,
+         "base-raiser": AllRaiseBase,
          "bytes": lambda: b"\xffwhy"}
 L_FORMAT = {"absent": lambda: ABSENT, "none": lambda: None, "%(a)s": lambda: "%(a)s", "%(a)r": lambda: "<%(a)r>",
             "%(a)d": lambda: "%(a)d", "%(missing)s": lambda: "%(missing)s", "%": lambda: "50%", "%s": lambda: "%s %s",
@@ -495,7 +564,7 @@ def l_judge(spec):
     from twisted.python.log import textFromEventDict
     try:
         r = textFromEventDict(l_build(spec))
-    except Exception as e:
+    except (Exception, HostileBase) as e:
         return ("raises", type(e).__name__), None
     if type(r) is str:
         return None, r
